@@ -87,6 +87,15 @@ fn run_actor(kind: char, h: &RepoHandle, seed: u64, version: u64, now: i64) -> R
     }
 }
 
+/// what a scenario run is for: `Exec` — the direct oracles decide (no trace); `Trace` — produce the abstract trace for the Lean
+/// driver whatever the oracles say; `Count` — only count the storage operations of the actors
+#[derive(Clone, Copy, PartialEq, Eq, Debug)]
+pub enum Mode {
+    Exec,
+    Trace,
+    Count,
+}
+
 pub struct Run {
     pub pre: Vec<String>,
     pub run: Vec<String>,
@@ -142,7 +151,7 @@ fn wait_parked(g: &Gated) {
 
 /// One gated run: A parked before its k-th storage operation; then B runs — completely (`j = None`) or up to its j-th
 /// operation, where it parks until A has finished.  Returns the abstract traces, or the failing oracle.
-fn scenario(kind: &str, seed: u64, k: usize, j: Option<usize>, with_trace: bool) -> Result<Run, String> {
+fn scenario(kind: &str, seed: u64, k: usize, j: Option<usize>, mode: Mode) -> Result<Run, String> {
     let pre = prestate(seed)?;
     let before = pre.h.be.store();
     let (ka, kb) = (kind.chars().next().unwrap(), kind.chars().nth(1).unwrap());
@@ -189,24 +198,32 @@ fn scenario(kind: &str, seed: u64, k: usize, j: Option<usize>, with_trace: bool)
     }
     // follow-up prune one hour later (keep-delete respected), then the repository must be completely healthy
     pre.h.be.clear_log();
-    prune_at(&pre.h, now + 10_800 + KD).map_err(|e| format!("oracle-fail:followup-prune-{}", errkind(&e)))?;
-    let log_follow = pre.h.be.log();
-    match check_errors_retry(&pre.h, true) {
-        Some(0) => {}
-        Some(_) => return Err("oracle-fail:check-errors-after-followup".into()),
-        None => return Err("oracle-fail:check-failed-after-followup".into()),
-    }
-    let r = pre.h.open().and_then(|r| r.to_indexed()).map_err(|_| "oracle-fail:open".to_string())?;
-    for (s, src) in &live {
-        let mut got = repo::read_back(&r, s).map_err(|_| "oracle-fail:snapshot-unreadable-after-followup".to_string())?;
-        got.retain(|e| e.path != b"src");
-        if got != repo::expected(src) {
-            return Err("oracle-fail:snapshot-differs-after-followup".into());
+    let oracle = (|| -> Result<(), String> {
+        prune_at(&pre.h, now + 10_800 + KD).map_err(|e| format!("oracle-fail:followup-prune-{}", errkind(&e)))?;
+        match check_errors_retry(&pre.h, true) {
+            Some(0) => {}
+            Some(_) => return Err("oracle-fail:check-errors-after-followup".into()),
+            None => return Err("oracle-fail:check-failed-after-followup".into()),
         }
-    }
-    if !with_trace {
+        let r = pre.h.open().and_then(|r| r.to_indexed()).map_err(|_| "oracle-fail:open".to_string())?;
+        for (s, src) in &live {
+            let mut got = repo::read_back(&r, s).map_err(|_| "oracle-fail:snapshot-unreadable-after-followup".to_string())?;
+            got.retain(|e| e.path != b"src");
+            if got != repo::expected(src) {
+                return Err("oracle-fail:snapshot-differs-after-followup".into());
+            }
+        }
+        Ok(())
+    })();
+    let log_follow = pre.h.be.log();
+    if mode != Mode::Trace {
+        // `exec`: the direct oracles decide
+        if mode == Mode::Exec {
+            oracle?;
+        }
         return Ok(Run { pre: vec![], run: vec![], follow: vec![], n_a, n_b });
     }
+    // `generate`: the trace is judged by the Lean driver, whatever the oracles say
     let after_all = union(&union(&union(&mid, &mid2), &after_run), &pre.h.be.store());
     let mut log = log_run.clone();
     log.extend(log_follow.iter().cloned());
@@ -261,7 +278,7 @@ fn prune_at_with(h: &RepoHandle, secs: i64, no_resize: bool) -> RusticResult<()>
     r.prune(&o, rep.plan)
 }
 
-fn scenario_fp(seed: u64, k: usize, fp: Fp, with_trace: bool) -> Result<Run, String> {
+fn scenario_fp(seed: u64, k: usize, fp: Fp, mode: Mode) -> Result<Run, String> {
     let e = |x: Box<rustic_core::RusticError>| format!("oracle-fail:prestate-{}", errkind(&x));
     let (h, _) = RepoHandle::init(MemBackend::new(), None, &cfg(seed)).map_err(e)?;
     let now = Timestamp::now().as_second();
@@ -310,22 +327,28 @@ fn scenario_fp(seed: u64, k: usize, fp: Fp, with_trace: bool) -> Result<Run, Str
     let after_run = h.be.store();
     // follow-up prune one hour later, then the repository must be completely healthy
     h.be.clear_log();
-    prune_at_with(&h, t1 + 4200, fp.no_resize).map_err(|e| format!("oracle-fail:followup-prune-{}", errkind(&e)))?;
-    let log_follow = h.be.log();
-    match check_errors_retry(&h, true) {
-        Some(0) => {}
-        Some(_) => return Err("oracle-fail:check-errors-after-followup".into()),
-        None => return Err("oracle-fail:check-failed-after-followup".into()),
-    }
-    let r = h.open().and_then(|r| r.to_indexed()).map_err(|_| "oracle-fail:open".to_string())?;
-    for (s, src) in &live {
-        let mut got = repo::read_back(&r, s).map_err(|_| "oracle-fail:snapshot-unreadable-after-followup".to_string())?;
-        got.retain(|e| e.path != b"src");
-        if got != repo::expected(src) {
-            return Err("oracle-fail:snapshot-differs-after-followup".into());
+    let oracle = (|| -> Result<(), String> {
+        prune_at_with(&h, t1 + 4200, fp.no_resize).map_err(|e| format!("oracle-fail:followup-prune-{}", errkind(&e)))?;
+        match check_errors_retry(&h, true) {
+            Some(0) => {}
+            Some(_) => return Err("oracle-fail:check-errors-after-followup".into()),
+            None => return Err("oracle-fail:check-failed-after-followup".into()),
         }
-    }
-    if !with_trace {
+        let r = h.open().and_then(|r| r.to_indexed()).map_err(|_| "oracle-fail:open".to_string())?;
+        for (s, src) in &live {
+            let mut got = repo::read_back(&r, s).map_err(|_| "oracle-fail:snapshot-unreadable-after-followup".to_string())?;
+            got.retain(|e| e.path != b"src");
+            if got != repo::expected(src) {
+                return Err("oracle-fail:snapshot-differs-after-followup".into());
+            }
+        }
+        Ok(())
+    })();
+    let log_follow = h.be.log();
+    if mode != Mode::Trace {
+        if mode == Mode::Exec {
+            oracle?;
+        }
         return Ok(Run { pre: vec![], run: vec![], follow: vec![], n_a, n_b: 0 });
     }
     let after_all = union(&union(&mid, &after_run), &h.be.store());
@@ -394,7 +417,7 @@ pub fn exec(toks: &[&str]) -> String {
             }
             let (Ok(seed), Ok(k), Ok(code)) = (sp[0].parse::<u64>(), sp[1].parse::<usize>(), sp[2].parse::<u64>()) else { return "bad-op".into() };
             let Some(fp) = Fp::from_code(code) else { return "bad-op".into() };
-            return match scenario_fp(seed, k, fp, false) {
+            return match scenario_fp(seed, k, fp, Mode::Exec) {
                 Ok(_) => "ok".into(),
                 Err(e) => e,
             };
@@ -412,7 +435,7 @@ pub fn exec(toks: &[&str]) -> String {
             Some(Ok(j)) => Some(j),
             Some(Err(_)) => return "bad-op".into(),
         };
-        match scenario(&toks[1], seed, k, j, false) {
+        match scenario(&toks[1], seed, k, j, Mode::Exec) {
             Ok(_) => "ok".into(),
             Err(e) => e,
         }
@@ -430,7 +453,7 @@ fn generate_fp(thorough: bool, rng: &mut Rng, ops: &mut Vec<String>, stats: &mut
                         let seed = rng.below(1_000_000);
                         let fp = Fp { n_snaps: 1 + rng.below(3), forget_all, a_new, prunes, old_packs, no_resize: rng.below(2) == 1 };
                         let code = fp.code();
-                        let n_a = guarded(move || match scenario_fp(seed, usize::MAX, fp, false) {
+                        let n_a = guarded(move || match scenario_fp(seed, usize::MAX, fp, Mode::Count) {
                             Ok(r) => r.n_a.to_string(),
                             Err(e) => e,
                         })
@@ -439,7 +462,7 @@ fn generate_fp(thorough: bool, rng: &mut Rng, ops: &mut Vec<String>, stats: &mut
                         for k in 0..=n_a {
                             let spec = format!("{seed},{k},{code}");
                             let spec2 = spec.clone();
-                            let line = guarded(move || match scenario_fp(seed, k, fp, true) {
+                            let line = guarded(move || match scenario_fp(seed, k, fp, Mode::Trace) {
                                 Ok(r) => {
                                     let jn = |v: &[String]| if v.is_empty() { "-".to_string() } else { v.join(";") };
                                     format!("c10 mon bfp {spec} {} {} {}", jn(&r.pre), jn(&r.run), jn(&r.follow))
@@ -465,7 +488,7 @@ pub fn generate(thorough: bool, rng: &mut Rng, ops: &mut Vec<String>, stats: &mu
         for kind in ["bp", "pb", "bb"] {
             let seed = rng.below(1_000_000);
             // number of storage operations of A and of B (parked beyond the last operation = sequential run)
-            let (n_a, n_b) = match guarded(move || match scenario(kind, seed, usize::MAX, Some(usize::MAX), false) {
+            let (n_a, n_b) = match guarded(move || match scenario(kind, seed, usize::MAX, Some(usize::MAX), Mode::Count) {
                 Ok(r) => format!("{},{}", r.n_a, r.n_b),
                 Err(e) => e,
             })
@@ -500,7 +523,7 @@ pub fn generate(thorough: bool, rng: &mut Rng, ops: &mut Vec<String>, stats: &mu
                     Some(j) => format!("{seed},{k},{j}"),
                 };
                 let spec2 = spec.clone();
-                let line = guarded(move || match scenario(kind, seed, k, j, true) {
+                let line = guarded(move || match scenario(kind, seed, k, j, Mode::Trace) {
                     Ok(r) => {
                         let jn = |v: &[String]| if v.is_empty() { "-".to_string() } else { v.join(";") };
                         format!("c10 mon {kind} {spec} {} {} {}", jn(&r.pre), jn(&r.run), jn(&r.follow))
